@@ -33,6 +33,7 @@ if TYPE_CHECKING:
 
 
 from exabgp.bgp.message.notification import Notify
+from exabgp.bgp.message.open.asn import AS_TRANS
 from exabgp.bgp.message.update.attribute.aspath import SEQUENCE, SET, AS2Path
 from exabgp.bgp.message.update.attribute.attribute import (
     Attribute,
@@ -177,6 +178,16 @@ class AttributeCollection(MutableMapping[int, Attribute]):
             #   For withdraws, include_nexthop=True includes NEXT_HOP in attributes
             if attribute.NO_GENERATION:
                 if not (include_nexthop and code == Attribute.CODE.NEXT_HOP):
+                    continue
+
+            # RFC 6793 4.2.3: AGGREGATOR and AS4_AGGREGATOR are one attribute in two pieces and share the key
+            # "aggregator": both printed, the object had that key twice. The four byte one stands when the two
+            # byte one is AS_TRANS, otherwise it is ignored.
+            if code == Attribute.CODE.AGGREGATOR and Attribute.CODE.AS4_AGGREGATOR in self:
+                if getattr(attribute, 'asn', None) == AS_TRANS:
+                    continue
+            if code == Attribute.CODE.AS4_AGGREGATOR and Attribute.CODE.AGGREGATOR in self:
+                if getattr(self[Attribute.CODE.AGGREGATOR], 'asn', None) != AS_TRANS:
                     continue
 
             if code not in self.representation:
